@@ -271,6 +271,26 @@ pub fn t_predefined(a: &[i64]) -> Val {
     Val::L(out)
 }
 
+thread_local! {
+    /// when set (native replay binary, `--emit <dir>`), every successful single-module build also writes its bindings
+    /// with the real backend (`backends::rust::write_module`) into this directory
+    pub static EMIT_DIR: std::cell::RefCell<Option<std::path::PathBuf>> = std::cell::RefCell::new(None);
+}
+
+#[cfg(pyxis_verif)]
+fn maybe_emit(st: &ResolvedSemanticState) {
+    let dir = EMIT_DIR.with(|d| d.borrow().clone());
+    if let Some(dir) = dir {
+        for (key, module) in st.modules() {
+            if let Err(e) = crate::backends::rust::write_module(&dir, key, st, module) {
+                eprintln!("EMIT-ERROR {e:?}");
+            }
+        }
+    }
+}
+#[cfg(not(pyxis_verif))]
+fn maybe_emit(_st: &ResolvedSemanticState) {}
+
 fn build_one(ps: usize, m: &M) -> Val {
     let mut st = SemanticState::new(ps);
     match st.add_module(m, &IP::from("m")) {
@@ -283,7 +303,11 @@ fn build_one(ps: usize, m: &M) -> Val {
             return Val::L(vec![s("err"), Val::L(msgs)]);
         }
     }
-    outcome(st.build())
+    let r = st.build();
+    if let Ok(st) = &r {
+        maybe_emit(st);
+    }
+    outcome(r)
 }
 
 const SCALARS: [&str; 13] = [
@@ -659,7 +683,7 @@ pub fn t_scope(a: &[i64]) -> Val {
 
 // ------------------------------------------------------------------------------------------------
 // t_inherit: bases A and B, derived D (bases: a: A [, b: B]), and DD (base d: D)  (C06, C07, C04, C16)
-// a = [ps, a_vft, b_vft, two_bases, d_block, mutation, dd_present, dd_block, a_impl, b_impl, d_impl, clash, a_fn_vis, cc]
+// a = [ps, a_vft, b_vft, two_bases, d_block, mutation, dd_present, dd_block, a_impl, b_impl, d_impl, clash, a_fn_vis, cc, d_priv_k]
 //  a_vft/b_vft: base has a vftable block with functions f0(&self, x: u32) -> u32 and f1(&mut self)
 //  d_block: 0 none; 1 repeats A's two functions (+ own `h`); 2 only own `h` (no base prefix)
 //  mutation (applied to D's copy of f0 when d_block == 1): 0 none, 1 rename, 2 parameter type, 3 return type,
@@ -716,7 +740,8 @@ pub fn t_inherit(a: &[i64]) -> Val {
                 mu == 7,
                 if mu == 5 { 3 } else { a[13] },
             );
-            let h = F::new((V::Public, "h"), [Ar::ConstSelf]);
+            // a[14]: D's own extra virtual function is private and called `k`, like the bases' impl functions
+            let h = if a[14] != 0 { F::new((V::Private, "k"), [Ar::ConstSelf]) } else { F::new((V::Public, "h"), [Ar::ConstSelf]) };
             let fns = if mu == 6 {
                 vec![d0]
             } else if mu == 8 {
@@ -769,7 +794,7 @@ pub fn t_inherit(a: &[i64]) -> Val {
 
 // ------------------------------------------------------------------------------------------------
 // t_items: item-level collisions (C14).
-// a = [ps, dup_type, dup_kind, vft_clash, ext_clash, second_module]
+// a = [ps, dup_type, dup_kind, vft_clash, ext_clash, second_module, ext_vft_clash]   (ext_vft_clash needs T to own a vftable: set vft_own)
 //  dup_type: module m declares `T` twice (second one: dup_kind 0 => another type with a u64 field, 1 => an enum)
 //  vft_clash: `T` has a vftable block and the user also declares a type named `TVftable`
 //  ext_clash: an extern type named `T` as well
@@ -777,7 +802,7 @@ pub fn t_inherit(a: &[i64]) -> Val {
 pub fn t_items(a: &[i64]) -> Val {
     let ps = a[0] as usize;
     let mut t_stmts: Vec<TS> = vec![];
-    if a[3] != 0 {
+    if a[3] != 0 || a[6] != 0 {
         t_stmts.push(TS::vftable([F::new((V::Public, "f"), [Ar::ConstSelf])]));
     }
     t_stmts.push(TS::field((V::Public, "a"), T::ident("u8").const_pointer()));
@@ -799,9 +824,15 @@ pub fn t_items(a: &[i64]) -> Val {
         ));
     }
     let mut m = M::new().with_definitions(defs);
+    let mut exts: Vec<(grammar::Ident, As)> = vec![];
     if a[4] != 0 {
-        m = m.with_extern_types([("T".into(), As::from(vec![A::size(4), A::align(4)]))]);
+        exts.push(("T".into(), As::from(vec![A::size(4), A::align(4)])));
     }
+    if a[6] != 0 {
+        // an extern type named like the vftable struct generated for T
+        exts.push(("TVftable".into(), As::from(vec![A::size(64), A::align(8)])));
+    }
+    m = m.with_extern_types(exts);
     let mut st = SemanticState::new(ps);
     if let Err(e) = st.add_module(&m, &IP::from("m")) {
         return outcome(Err(e));
@@ -987,7 +1018,7 @@ pub fn t_order_vft(a: &[i64]) -> Val {
 
 // t_equiv: a description and a rewritten but equivalent description (C20).
 //   extern X0 (s0, al), X1 (s1, al);  type T { [vftable { v0; v1 }] f0: X0, <gap g>, f1: X1 }  enum E: i32 { A = e0, B, C }
-// a = [ps, s0, s1, al, g, e0, vft, r_addr0, r_gap, r_size, r_index, r_enum, r_order, r_addr1]
+// a = [ps, s0, s1, al, g, e0, vft, r_addr0, r_gap, r_size, r_index, r_enum, r_order, r_addr1, base_mode]
 //   r_addr0 : f0 gets the explicit address it already has          r_addr1: same for f1
 //   r_gap   : the gap is written as `_: unknown<g>` in the first description and as #[address] on f1 in the second
 //   r_size  : #[size(natural size)] added        r_index : #[index(1)] on v1      r_enum : `B = e0 + 1` written out
@@ -998,8 +1029,9 @@ pub fn t_equiv(a: &[i64]) -> Val {
     let vft = a[6] != 0;
     let head = if vft { ps } else { 0 };
     let off0 = head;
-    let off1 = head.wrapping_add(s0).wrapping_add(g);
-    let natural = off1.wrapping_add(s1);
+    let base_mode = a[14] != 0;
+    let off1 = if base_mode { head.wrapping_add(g) } else { head.wrapping_add(s0).wrapping_add(g) };
+    let natural = if base_mode { off1.wrapping_add(ps).wrapping_add(s1) } else { off1.wrapping_add(s1) };
     let build = |rw: bool| -> Val {
         let on = |i: usize| rw && a[i] != 0;
         let mut stmts: Vec<TS> = vec![];
@@ -1009,19 +1041,32 @@ pub fn t_equiv(a: &[i64]) -> Val {
             stmts.push(TS::vftable([F::new((V::Public, "v0"), [Ar::ConstSelf]), v1]));
         }
         let f0 = TS::field((V::Public, "f0"), T::ident("X0"));
-        stmts.push(if on(7) { f0.with_attributes([A::integer_fn("address", off0 as isize)]) } else { f0 });
-        let f1 = TS::field((V::Public, "f1"), T::ident("X1"));
+        stmts.push(if on(7) && !base_mode { f0.with_attributes([A::integer_fn("address", off0 as isize)]) } else { f0 });
+        // a[14]: f1 is a #[base] field of a type with a vftable (and f0 is left out, so only the gap precedes the base)
+        if base_mode {
+            stmts.pop();
+        }
+        let mk_f1 = |with_addr: bool| -> TS {
+            let mut at: Vec<A> = vec![];
+            if base_mode {
+                at.push(A::base());
+            }
+            if with_addr {
+                at.push(A::integer_fn("address", off1 as isize));
+            }
+            TS::field((V::Public, "f1"), T::ident(if base_mode { "Bv" } else { "X1" })).with_attributes(at)
+        };
         if a[8] != 0 {
             // gap spelled as unknown<g> (first description) or as an address on f1 (second)
             if rw {
-                stmts.push(f1.with_attributes([A::integer_fn("address", off1 as isize)]));
+                stmts.push(mk_f1(true));
             } else {
                 stmts.push(TS::field((V::Private, "_"), T::unknown(g)));
-                stmts.push(if on(13) { f1.with_attributes([A::integer_fn("address", off1 as isize)]) } else { f1 });
+                stmts.push(mk_f1(on(13)));
             }
         } else {
             // the gap is an address on f1 in both descriptions
-            stmts.push(f1.with_attributes([A::integer_fn("address", off1 as isize)]));
+            stmts.push(mk_f1(true));
         }
         let mut t_attrs = vec![A::integer_fn("align", al as isize)];
         if on(9) {
@@ -1033,7 +1078,15 @@ pub fn t_equiv(a: &[i64]) -> Val {
             (V::Public, "E"),
             ED::new(T::ident("i32"), [ES::field_with_expr("A", E::IntLiteral(e0)), b, ES::field("C")], []),
         );
-        let defs = if on(12) { vec![ed, td] } else { vec![td, ed] };
+        let bv = ID::new(
+            (V::Public, "Bv"),
+            TD::new([
+                TS::vftable([F::new((V::Public, "b0"), [Ar::ConstSelf])]),
+                TS::field((V::Private, "_"), T::unknown(s1)),
+            ])
+            .with_attributes([A::integer_fn("align", ps as isize)]),
+        );
+        let defs = if on(12) { vec![ed, bv, td] } else { vec![td, bv, ed] };
         let ext = |n: &str, sz: usize| -> (grammar::Ident, As) {
             (n.into(), As::from(vec![A::integer_fn("size", sz as isize), A::integer_fn("align", al as isize)]))
         };
@@ -1106,6 +1159,88 @@ pub fn t_unrelated(a: &[i64]) -> Val {
     Val::L(vec![run(false), run(true)])
 }
 
+
+// ------------------------------------------------------------------------------------------------
+// t_odd: structurally unusual but well-formed grammar trees (C12: every input yields a result).
+//   type Base { [vftable { f(&self) }] x: word }    enum En: u32 { A }
+//   type D { [vftable block at position vpos] #[base]? <name | _>: <Base | *const Base | En | [Base; n] | u32 | unknown<n>>, y: word }
+// a = [ps, base_vft, named, is_base, kind, n, d_vft(0 none, 1 first, 2 after the field), doc_kind(0 none, 1 string, 2 integer), dup_attr]
+pub fn t_odd(a: &[i64]) -> Val {
+    let ps = a[0] as usize;
+    let word = if ps == 8 { "u64" } else { "u32" };
+    let mut b_stmts: Vec<TS> = vec![];
+    if a[1] != 0 {
+        b_stmts.push(TS::vftable([F::new((V::Public, "f"), [Ar::ConstSelf])]));
+    }
+    b_stmts.push(TS::field((V::Public, "x"), T::ident(word)));
+    let ty = match a[4] {
+        0 => T::ident("Base"),
+        1 => T::ident("Base").const_pointer(),
+        2 => T::ident("En"),
+        3 => T::ident("Base").array(a[5] as usize),
+        4 => T::ident(word),
+        _ => T::unknown(a[5] as usize),
+    };
+    let mut fattrs: Vec<A> = vec![];
+    if a[3] != 0 {
+        fattrs.push(A::base());
+    }
+    match a[7] {
+        1 => fattrs.push(A::doc("a doc line")),
+        2 => fattrs.push(A::Assign("doc".into(), E::IntLiteral(7))),
+        _ => {}
+    }
+    if a[8] != 0 {
+        fattrs.push(A::integer_fn("address", 0));
+        fattrs.push(A::integer_fn("address", ps as isize));
+    }
+    let fld = TS::field((V::Public, if a[2] != 0 { "b" } else { "_" }), ty).with_attributes(fattrs);
+    let vt = || TS::vftable([F::new((V::Public, "f"), [Ar::ConstSelf])]);
+    let mut d_stmts: Vec<TS> = vec![];
+    if a[6] == 1 {
+        d_stmts.push(vt());
+    }
+    d_stmts.push(fld);
+    if a[6] == 2 {
+        d_stmts.push(vt());
+    }
+    d_stmts.push(TS::field((V::Public, "y"), T::ident(word)));
+    let m = M::new().with_definitions([
+        ID::new((V::Public, "D"), TD::new(d_stmts)),
+        ID::new((V::Public, "Base"), TD::new(b_stmts)),
+        ID::new((V::Public, "En"), ED::new(T::ident("u32"), [ES::field("A")], [])),
+    ]);
+    build_one(ps, &m)
+}
+
+
+// t_modtype: a nested module `p::q` refers to its own type `q`; the enclosing module `p` may declare a type that is also called
+// `q` (so that the *type* path `p::q` equals the *module* path `p::q`).  Built without and with that type (C19, C11).
+// a = [ps, own_size, parent_size, which_name]   which_name: 0 => the type is called `q` like the module, 1 => it is called `S`
+pub fn t_modtype(a: &[i64]) -> Val {
+    let ps = a[0] as usize;
+    let tname = if a[3] != 0 { "S" } else { "q" };
+    let ext = |size: i64| -> Vec<(grammar::Ident, As)> {
+        vec![(tname.into(), As::from(vec![A::integer_fn("size", size as isize), A::integer_fn("align", 1)]))]
+    };
+    let inner = M::new().with_extern_types(ext(a[1])).with_definitions([ID::new(
+        (V::Public, "R"),
+        TD::new([TS::field((V::Public, "f"), T::ident(tname))]).with_attributes([A::packed()]),
+    )]);
+    let run = |with_parent_type: bool| -> Val {
+        let mut st = SemanticState::new(ps);
+        let parent = if with_parent_type { M::new().with_extern_types(ext(a[2])) } else { M::new() };
+        if let Err(e) = st.add_module(&parent, &IP::from("p")) {
+            return outcome(Err(e));
+        }
+        if let Err(e) = st.add_module(&inner, &IP::from("p::q")) {
+            return outcome(Err(e));
+        }
+        outcome(st.build())
+    };
+    Val::L(vec![run(false), run(true)])
+}
+
 pub type Template = fn(&[i64]) -> Val;
 pub const TEMPLATES: &[(&str, Template)] = &[
     ("t_predefined", t_predefined),
@@ -1123,4 +1258,6 @@ pub const TEMPLATES: &[(&str, Template)] = &[
     ("t_order_vft", t_order_vft),
     ("t_equiv", t_equiv),
     ("t_unrelated", t_unrelated),
+    ("t_odd", t_odd),
+    ("t_modtype", t_modtype),
 ];
